@@ -25,6 +25,7 @@ Common == { <<"header", "truncated">>, <<"header", "garbage">>, <<"callId", "mis
             <<"cell.kvLen", "zero">>, <<"cell.kvLen", "minus1">>, <<"cell.kvLen", "plus1">>, <<"cell.kvLen", "max">>,
             <<"cell.keyLen", "zero">>, <<"cell.keyLen", "plus1">>, <<"cell.keyLen", "max">>,
             <<"cell.valLen", "plus1">>, <<"cell.valLen", "max">>,
+            <<"cell.keyValLen", "keyMinusK_valPlusK">>, <<"cell.keyValLen", "keyPlusK_valMinusK">>,
             <<"cell.rowLen", "plus1">>, <<"cell.rowLen", "max">>,
             <<"cell.famLen", "plus1">>, <<"cell.famLen", "max">>,
             <<"cellblock", "everyPrefix">>, <<"cellblock", "trailingGarbage">>,
